@@ -28,6 +28,10 @@ pub assume_specification<T: std::cmp::Ord>[std::cmp::min](a: T, b: T) -> (r: T)
         T::obeys_cmp_spec() ==> (r == if a.cmp_spec(&b) == core::cmp::Ordering::Greater { b } else { a }),
 ;
 
+// [trusted:assumed-spec] core::mem::replace (not used by the current tree): stores the new value, returns the old one
+pub assume_specification<T>[core::mem::replace::<T>](dest: &mut T, src: T) -> (r: T)
+    ensures *final(dest) == src, r == *old(dest),
+;
 // [trusted:assumed-spec] u64::abs_diff (not used by the current tree)
 pub assume_specification[u64::abs_diff](a: u64, b: u64) -> (r: u64)
     ensures r == if a >= b { a - b } else { b - a },
